@@ -1,0 +1,82 @@
+//go:build verif
+
+// Contracts for the gocv verifier (comment-only file; see /verif/DESIGN.md §4).
+// C15: the four OPT records of a query context are kept apart.
+package query_context
+
+//@ import dns "github.com/miekg/dns"
+
+// a fresh OPT as newOpt builds it: OPT type code, root name, UDP size 1200, no options, DO clear
+//@ spec func plainOpt(o *dns.OPT) bool = o != nil && o.Hdr.Rrtype == 41 && o.Hdr.Name == "." && o.Hdr.Class == 1200 && len(o.Option) == 0
+
+//@ func newOpt [C15]
+//@   ensures fresh(result) && plainOpt(result) && result.Hdr.Ttl == 0
+
+//@ func setDo [C15]
+//@   requires opt != nil && 0 <= opt.Hdr.Ttl && opt.Hdr.Ttl < 32768
+//@   modifies opt.Hdr.Ttl
+//@   ensures optDo(opt) == do && opt.Hdr.Ttl % 32768 == old(opt.Hdr.Ttl)
+
+// findOpt: the last OPT record of the additional section, or nil
+//@ func findOpt [C15]
+//@   requires m != nil && okRRs(m.Extra)
+//@   ensures result == nil ==> noOPT(m.Extra)
+//@   ensures result != nil ==> exists k int :: 0 <= k && k < len(m.Extra) && isOPT(m.Extra[k]) && m.Extra[k].val == result
+//@   loop 0:
+//@     invariant 0 - 1 <= i && i < len(m.Extra) && (forall k int :: i < k && k < len(m.Extra) ==> !isOPT(m.Extra[k]))
+
+// popOpt: removes the (single) OPT record and returns it; afterwards the additional section has none.
+//@ func popOpt [C15]
+//@   requires m != nil && atMostOneOPT(m.Extra) && okRRs(m.Extra)
+//@   modifies m.Extra, elems(m.Extra)
+//@   ensures noOPT(m.Extra)
+//@   ensures result == nil ==> old(noOPT(m.Extra)) && len(m.Extra) == old(len(m.Extra)) && (forall k int :: 0 <= k && k < len(m.Extra) ==> m.Extra[k] == old(m.Extra[k]))
+//@   ensures result != nil ==> len(m.Extra) == old(len(m.Extra)) - 1 && (exists k int :: 0 <= k && k < old(len(m.Extra)) && old(isOPT(m.Extra[k])) && old(m.Extra[k].val) == result)
+//@   loop 0:
+//@     invariant 0 - 1 <= i && i < len(m.Extra) && (forall k int :: i < k && k < len(m.Extra) ==> !isOPT(m.Extra[k]))
+//@     invariant m.Extra == old(m.Extra) && (forall k int :: 0 <= k && k < len(m.Extra) ==> m.Extra[k] == old(m.Extra[k]))
+
+// addNewAndSwapOldOpt: afterwards the additional section holds exactly one OPT, a fresh plain one;
+// the client's OPT (if any) is handed back and is no longer in the message.
+//@ func addNewAndSwapOldOpt [C15]
+//@   requires m != nil && atMostOneOPT(m.Extra) && okRRs(m.Extra)
+//@   modifies m.Extra, elems(m.Extra)
+//@   ensures atMostOneOPT(m.Extra)
+//@   ensures exists k int :: 0 <= k && k < len(m.Extra) && isOPT(m.Extra[k]) && fresh(m.Extra[k].val) && plainOpt(cast(*dns.OPT, m.Extra[k].val)) && cast(*dns.OPT, m.Extra[k].val).Hdr.Ttl == 0 && m.Extra[k].val != result
+//@   ensures result == nil ==> old(noOPT(m.Extra))
+//@   ensures result != nil ==> exists k int :: 0 <= k && k < old(len(m.Extra)) && old(isOPT(m.Extra[k])) && old(m.Extra[k].val) == result
+//@   loop 0:
+//@     invariant 0 - 1 <= i && i < len(m.Extra) && (forall k int :: i < k && k < len(m.Extra) ==> !isOPT(m.Extra[k]))
+//@     invariant m.Extra == old(m.Extra) && (forall k int :: 0 <= k && k < len(m.Extra) ==> m.Extra[k] == old(m.Extra[k]))
+
+//@ func NewContext [C15]
+//@   log NewContext
+//@   requires q != nil && atMostOneOPT(q.Extra) && okRRs(q.Extra)
+//@   modifies q.Extra, elems(q.Extra)
+//@   ensures fresh(result) && result.query == q && result.resp == nil && result.upstreamOpt == nil
+//@   ensures atMostOneOPT(q.Extra) && (exists k int :: 0 <= k && k < len(q.Extra) && isOPT(q.Extra[k]) && fresh(q.Extra[k].val) && plainOpt(cast(*dns.OPT, q.Extra[k].val)) && q.Extra[k].val != result.clientOpt)
+//@   ensures result.clientOpt == nil ==> old(noOPT(q.Extra)) && result.respOpt == nil
+//@   ensures result.clientOpt != nil ==> (exists k int :: 0 <= k && k < old(len(q.Extra)) && old(isOPT(q.Extra[k])) && old(q.Extra[k].val) == result.clientOpt)
+//@   ensures result.clientOpt != nil ==> fresh(result.respOpt) && result.respOpt != result.clientOpt
+//@   ensures result.clientOpt != nil ==> plainOpt(result.respOpt)
+//@   ensures result.clientOpt != nil ==> optDo(result.respOpt) == optDo(result.clientOpt)
+
+//@ func (ctx *Context) Q [C15]
+//@   log ctxQ
+//@   requires ctx != nil
+//@   ensures result == ctx.query
+
+//@ func (ctx *Context) R [C15]
+//@   log ctxR
+//@   requires ctx != nil
+//@   ensures result == ctx.resp
+
+//@ func (ctx *Context) SetResponse [C15]
+//@   log SetResponse
+//@   requires ctx != nil && (m != nil ==> atMostOneOPT(m.Extra) && okRRs(m.Extra))
+//@   modifies ctx.resp, ctx.upstreamOpt, m.Extra, elems(m.Extra)
+//@   ensures ctx.resp == m
+//@   ensures m == nil ==> ctx.upstreamOpt == nil
+//@   ensures m != nil ==> noOPT(m.Extra)
+//@   ensures m != nil && ctx.upstreamOpt != nil ==> len(m.Extra) == old(len(m.Extra)) - 1 && (exists k int :: 0 <= k && k < old(len(m.Extra)) && old(isOPT(m.Extra[k])) && old(m.Extra[k].val) == ctx.upstreamOpt)
+//@   ensures m != nil && ctx.upstreamOpt == nil ==> old(noOPT(m.Extra)) && len(m.Extra) == old(len(m.Extra))
